@@ -613,7 +613,21 @@ class Req:
             cal = gf.dep_callees(d)
             return any(c == "core::slice::len" for c in cal) and any(r["op"] in ("Lt", "Le", "Gt", "Ge") for r in d["binops"])
         g = gf.find_guards(f, dep, splits, require_error_exit=False)
-        return (len(g) >= 1 and bool(splits), "the MAC split is guarded by a comparison of the computed length with the buffer length")
+        # the guarded quantity must be the very value the buffer is split at (not a part of it)
+        from . import expr as _expr
+        ex = _expr.Expr(self.F, f)
+        same = False
+        for gd in g:
+            for r in gd.deps["binops"]:
+                if r["op"] not in ("Lt", "Le", "Gt", "Ge"):
+                    continue
+                sides = [ex.of_operand(r["a"]), ex.of_operand(r["b"])]
+                for b in splits:
+                    at = ex.of_operand(f.blocks[b]["term"]["args"][1])
+                    if at in sides:
+                        same = True
+        return (len(g) >= 1 and bool(splits) and same,
+                "the MAC split is guarded by a comparison of the buffer length with the split position itself (guards: %d, same value: %s)" % (len(g), same))
 
     def r_aux_fresh_level_from_optimal(self):
         f = self.fn("hss::definitions::HssPrivateKey::get_expanded_aux_data")
